@@ -270,7 +270,18 @@ matching case, else the default; an if runs the first branch whose condition hol
 dropped, a scope not restored or a changed order shows as a difference. -/
 /-- the statement list, if, switch and the five loop forms -/
 def branchAndLoopFlow : List (String × String) := [
-  ("runStmtsStmt", "for _, stmt range stmts.Stmts => switch stmt.(type) { case *ast.BreakStmt: E = ErrBreak return case *ast.ContinueStmt: E = ErrContinue return case *ast.ReturnStmt: ri.stmt = stmt ri.runSingleStmt() if E != nil { return } E = ErrReturn return default: ri.stmt = stmt ri.runSingleStmt() if E != nil { return } }"),
+  ("runStmtsStmt", "for _, stmt range stmts.Stmts && stmt.(type) in {*ast.BreakStmt} => E = ErrBreak"),
+  ("runStmtsStmt", "for _, stmt range stmts.Stmts && stmt.(type) in {*ast.BreakStmt} => return"),
+  ("runStmtsStmt", "for _, stmt range stmts.Stmts && stmt.(type) in {*ast.ContinueStmt} => E = ErrContinue"),
+  ("runStmtsStmt", "for _, stmt range stmts.Stmts && stmt.(type) in {*ast.ContinueStmt} => return"),
+  ("runStmtsStmt", "for _, stmt range stmts.Stmts && stmt.(type) in {*ast.ReturnStmt} => ri.stmt = stmt"),
+  ("runStmtsStmt", "for _, stmt range stmts.Stmts && stmt.(type) in {*ast.ReturnStmt} => ri.runSingleStmt()"),
+  ("runStmtsStmt", "for _, stmt range stmts.Stmts && stmt.(type) in {*ast.ReturnStmt} && E != nil => return"),
+  ("runStmtsStmt", "for _, stmt range stmts.Stmts && stmt.(type) in {*ast.ReturnStmt} => E = ErrReturn"),
+  ("runStmtsStmt", "for _, stmt range stmts.Stmts && stmt.(type) in {*ast.ReturnStmt} => return"),
+  ("runStmtsStmt", "for _, stmt range stmts.Stmts && stmt.(type) default => ri.stmt = stmt"),
+  ("runStmtsStmt", "for _, stmt range stmts.Stmts && stmt.(type) default => ri.runSingleStmt()"),
+  ("runStmtsStmt", "for _, stmt range stmts.Stmts && stmt.(type) default && E != nil => return"),
   ("runIfStmt", "ri.expr = stmt.If"),
   ("runIfStmt", "ri.invokeExpr()"),
   ("runIfStmt", "E != nil => return"),
@@ -320,7 +331,11 @@ def branchAndLoopFlow : List (String × String) := [
   ("runSwitchStmt", "ri.env = env"),
   ("runLoopStmt", "env := ri.env"),
   ("runLoopStmt", "ri.env = env.NewEnv()"),
-  ("runLoopStmt", "for => select { case <-ri.ctx.Done(): E = ErrInterrupt R = nilValue ri.env = env return default: }"),
+  ("runLoopStmt", "for && select <-ri.ctx.Done() => E = ErrInterrupt"),
+  ("runLoopStmt", "for && select <-ri.ctx.Done() => R = nilValue"),
+  ("runLoopStmt", "for && select <-ri.ctx.Done() => ri.env = env"),
+  ("runLoopStmt", "for && select <-ri.ctx.Done() => return"),
+  ("runLoopStmt", "for && select default => (nothing)"),
   ("runLoopStmt", "for && stmt.Expr != nil => ri.expr = stmt.Expr"),
   ("runLoopStmt", "for && stmt.Expr != nil => ri.invokeExpr()"),
   ("runLoopStmt", "for && stmt.Expr != nil && E != nil => break"),
@@ -348,7 +363,10 @@ def branchAndLoopFlow : List (String × String) := [
   ("runForStmt", "value.Kind() default => E = newStringError(stmt, \"for cannot loop over type \"+value.Kind().String())"),
   ("runForStmt", "value.Kind() default => R = nilValue"),
   ("runForStmt", "ri.env = env"),
-  ("runForSliceStmt", "for i := 0; i < value.Len(); i++ => select { case <-ri.ctx.Done(): E = ErrInterrupt R = nilValue return default: }"),
+  ("runForSliceStmt", "for i := 0; i < value.Len(); i++ && select <-ri.ctx.Done() => E = ErrInterrupt"),
+  ("runForSliceStmt", "for i := 0; i < value.Len(); i++ && select <-ri.ctx.Done() => R = nilValue"),
+  ("runForSliceStmt", "for i := 0; i < value.Len(); i++ && select <-ri.ctx.Done() => return"),
+  ("runForSliceStmt", "for i := 0; i < value.Len(); i++ && select default => (nothing)"),
   ("runForSliceStmt", "for i := 0; i < value.Len(); i++ => iv := unalias(value.Index(i))"),
   ("runForSliceStmt", "for i := 0; i < value.Len(); i++ && (iv.Kind() == Interface && !iv.IsNil()) => iv = iv.Elem()"),
   ("runForSliceStmt", "for i := 0; i < value.Len(); i++ => ri.env.DefineValue(stmt.Vars[0], iv)"),
@@ -361,7 +379,10 @@ def branchAndLoopFlow : List (String × String) := [
   ("runForSliceStmt", "for i := 0; i < value.Len(); i++ && E != nil => break"),
   ("runForSliceStmt", "R = nilValue"),
   ("runForMapStmt", "keys := value.MapKeys()"),
-  ("runForMapStmt", "for i := 0; i < len(keys); i++ => select { case <-ri.ctx.Done(): E = ErrInterrupt R = nilValue return default: }"),
+  ("runForMapStmt", "for i := 0; i < len(keys); i++ && select <-ri.ctx.Done() => E = ErrInterrupt"),
+  ("runForMapStmt", "for i := 0; i < len(keys); i++ && select <-ri.ctx.Done() => R = nilValue"),
+  ("runForMapStmt", "for i := 0; i < len(keys); i++ && select <-ri.ctx.Done() => return"),
+  ("runForMapStmt", "for i := 0; i < len(keys); i++ && select default => (nothing)"),
   ("runForMapStmt", "for i := 0; i < len(keys); i++ => mapValue := value.MapIndex(keys[i])"),
   ("runForMapStmt", "for i := 0; i < len(keys); i++ && !mapValue.IsValid() => continue"),
   ("runForMapStmt", "for i := 0; i < len(keys); i++ => ri.env.DefineValue(stmt.Vars[0], keys[i])"),
@@ -401,7 +422,11 @@ def branchAndLoopFlow : List (String × String) := [
   ("runCForStmt", "stmt.Stmt1 != nil => ri.runSingleStmt()"),
   ("runCForStmt", "stmt.Stmt1 != nil && E != nil => ri.env = env"),
   ("runCForStmt", "stmt.Stmt1 != nil && E != nil => return"),
-  ("runCForStmt", "for => select { case <-ri.ctx.Done(): E = ErrInterrupt R = nilValue ri.env = env return default: }"),
+  ("runCForStmt", "for && select <-ri.ctx.Done() => E = ErrInterrupt"),
+  ("runCForStmt", "for && select <-ri.ctx.Done() => R = nilValue"),
+  ("runCForStmt", "for && select <-ri.ctx.Done() => ri.env = env"),
+  ("runCForStmt", "for && select <-ri.ctx.Done() => return"),
+  ("runCForStmt", "for && select default => (nothing)"),
   ("runCForStmt", "for && stmt.Expr2 != nil => ri.expr = stmt.Expr2"),
   ("runCForStmt", "for && stmt.Expr2 != nil => ri.invokeExpr()"),
   ("runCForStmt", "for && stmt.Expr2 != nil && E != nil => break"),
